@@ -320,6 +320,100 @@ void c14_case(Ctx& c, Rng& r) {
 }
 HX_PROPERTY("C14", c14_case);
 
+// ------------------------------------------------------------------------------------ C14 (concurrent senders)
+// The daemon has several threads that send to the same peer: the tick loop and control handlers (under the node
+// mutex) and every session reader thread answering a request (no daemon-level lock).  Here 2..4 threads of node A
+// send to B at the same time, large payloads included and B's handler slowed down so that the socket fills up.
+void c14m_case(Ctx& c, Rng& r) {
+    vclk::real_mode();
+    Config ca = base_config(r), cb = base_config(r);
+    struct SlowNode {
+        std::unique_ptr<Node> node;
+        std::mutex m;
+        std::vector<Received> received;
+        std::atomic<unsigned> delay_us{0};
+        SlowNode(const PeerId& id, const Config& cfg) : node(std::make_unique<Node>(id, cfg)) {
+            node->set_message_handler([this](const network::TransportMessage& msg) {
+                Received rec{ref::sha256(std::span<const std::uint8_t>(msg.payload.data(), msg.payload.size())), msg.payload.size()};
+                if (const auto d = delay_us.load()) ::usleep(d);
+                std::scoped_lock lock(m);
+                received.push_back(rec);
+            });
+            node->start_transport(0);
+        }
+        ~SlowNode() { node->stop_transport(); }
+        std::size_t count() { std::scoped_lock lock(m); return received.size(); }
+    };
+    LiveNode A(r.arr<32>(), ca);
+    SlowNode B(r.arr<32>(), cb);
+    if (!mutual_handshake(*A.node, *B.node)) { c.violation("harness:C14:handshake-failed", "{}"); return; }
+    if (!A.node->connect_peer(B.node->id(), "127.0.0.1", B.node->transport_port())) { c.violation("harness:C14:connect-failed", "{}"); return; }
+    const int nthreads = 2 + static_cast<int>(r.below(3));
+    const auto per_thread = 3 + r.below(10);
+    const unsigned receiver_delay = r.chance(1, 2) ? static_cast<unsigned>(r.below(3000)) : 0;
+    B.delay_us.store(receiver_delay);
+    struct Sent { std::array<std::uint8_t, 32> digest; std::size_t len; bool ok; };
+    std::vector<std::vector<Sent>> sent(nthreads);
+    std::vector<std::uint64_t> seeds;
+    for (int t = 0; t < nthreads; ++t) seeds.push_back(r.next());
+    std::atomic<int> go{0};
+    std::vector<std::thread> th;
+    for (int t = 0; t < nthreads; ++t) {
+        th.emplace_back([&, t] {
+            Rng q(seeds[t]);
+            go.fetch_add(1);
+            while (go.load() < nthreads) ::sched_yield();
+            for (std::uint64_t i = 0; i < per_thread; ++i) {
+                std::size_t len;
+                const auto k = q.below(6);
+                if (k == 0) len = MiB;
+                else if (k <= 2) len = 200000 + q.below(800000);
+                else if (k == 3) len = q.below(64);
+                else len = 1000 + q.below(60000);
+                auto payload = q.bytes(len);
+                if (len >= 9) { payload[0] = static_cast<std::uint8_t>(t); for (int b = 0; b < 8; ++b) payload[1 + b] = static_cast<std::uint8_t>(i >> (8 * b)); }
+                const bool ok = A.node->send_secure(B.node->id(), payload);
+                sent[t].push_back(Sent{ref::sha256(std::span<const std::uint8_t>(payload.data(), payload.size())), len, ok});
+                if (q.chance(1, 3)) ::sched_yield();
+            }
+        });
+    }
+    for (auto& t : th) t.join();
+    std::size_t total = 0, bytes = 0;
+    for (auto& v : sent) for (auto& s : v) { c.note("concurrent.sends"); if (s.ok) { ++total; bytes += s.len; } else c.violation("C14:send:payload-within-limit-refused", J().kv("len", s.len).kv("mode", "concurrent").str()); }
+    c.note("concurrent.bytes-sent", bytes);
+    B.delay_us.store(0);
+    const bool all = wait_real([&] { return B.count() >= total; }, 60000);
+    ::usleep(20000);
+    std::scoped_lock lock(B.m);
+    c.note("concurrent.messages-delivered", B.received.size());
+    // attribute by digest (payloads are random, 9+ byte payloads also carry thread and sequence)
+    std::map<std::array<std::uint8_t, 32>, std::pair<int, std::size_t>> where;
+    for (int t = 0; t < nthreads; ++t) for (std::size_t i = 0; i < sent[t].size(); ++i) if (sent[t][i].len >= 9) where[sent[t][i].digest] = {t, i};
+    std::vector<std::size_t> next(nthreads, 0);
+    std::size_t foreign = 0, misordered = 0, matched = 0, tiny = 0;
+    for (auto& rec : B.received) {
+        const auto it = where.find(rec.digest);
+        if (it == where.end()) { if (rec.len < 9) ++tiny; else ++foreign; continue; }
+        ++matched;
+        const auto [t, i] = it->second;
+        // skip over this thread's tiny payloads (not attributable)
+        while (next[t] < sent[t].size() && sent[t][next[t]].len < 9) ++next[t];
+        if (i != next[t]) ++misordered;
+        next[t] = i + 1;
+    }
+    std::size_t tiny_sent = 0;
+    for (auto& v : sent) for (auto& s : v) if (s.len < 9) ++tiny_sent;
+    if (foreign) c.violation("C14:delivery:payload-changed-or-reordered", J().kv("mode", "concurrent").kv("delivered_payloads_nobody_sent", foreign).kv("threads", nthreads).str());
+    else if (!all || matched + tiny < total) c.violation("C14:delivery:messages-lost", J().kv("mode", "concurrent").kv("sent", total).kv("received", B.received.size()).kv("threads", nthreads).str());
+    else if (B.received.size() != total || tiny != tiny_sent) c.violation("C14:delivery:extra-messages-delivered", J().kv("mode", "concurrent").kv("sent", total).kv("received", B.received.size()).str());
+    else if (misordered) c.violation("C14:delivery:payload-changed-or-reordered", J().kv("mode", "concurrent").kv("out_of_per_sender_order", misordered).str());
+    c.note("concurrent.node-pairs");
+    c.sig(hx::mix(hx::mix(nthreads, per_thread), bytes));
+    if (c.cur_case % 5 == 0) c.sample(J().kv("mode", "concurrent senders").kv("threads", nthreads).kv("messages", total).kv("bytes", bytes).kv("receiver_delay_us", receiver_delay).str());
+}
+HX_PROPERTY("C14m", c14m_case);
+
 // ------------------------------------------------------------------------------------ C20 (socket level)
 void c20s_case(Ctx& c, Rng& r) {
     vclk::offset_mode();
